@@ -89,6 +89,9 @@ def detect(d, prop, lanes, tier):
     rc, out = sh(f"git apply {d}/patch.diff", cwd=REPO)
     if rc != 0:
         return dict(error="patch does not apply to /repo: " + out[-300:])
+    # evidence/<prop>.json is rewritten by every run: keep the clean-tree evidence, store the mutant run's next to the patch
+    ev = f"/verif/evidence/{prop}.json"
+    saved = open(ev).read() if os.path.exists(ev) else None
     try:
         cmd = ["python3", "run/check.py", prop, "--tier", tier]
         if lanes:
@@ -102,6 +105,8 @@ def detect(d, prop, lanes, tier):
         res["summary"] = [l for l in out.splitlines() if l.startswith("[summary]")][-1:] or [out[-300:]]
         res["detected"] = rc == 1 and res["violation_lines"] > 0
     finally:
+        if saved is not None:
+            open(ev, "w").write(saved)
         sh("git checkout -- .", cwd=REPO)
         rc, out = sh("git status --short", cwd=REPO)
         res["repo_clean_after"] = not out.strip()
